@@ -18,6 +18,8 @@ Transliteration, branch by branch, of
   grows by `add_error`;
 * a fused `Node::Stateless(ops)` block that contains validators (`applyBlock`);
 * `VecOpsImpl::split` and the `parts = partitions.max(1).min(len.max(1))` clamp of `runner.rs::exec_par`;
+* a validator behind a barrier (`afterBarrier`, `runStages`: ONE partition comes out of `GroupByKey`) and in the
+  sides of a join (`runJoin`: `CoGroup` runs the left sub-chain, then the right one, then joins);
 * `combine_validations`;
 * the capability contract tested by `planner.rs::reorder_value_only_runs_tracked`.
 
@@ -225,6 +227,63 @@ inductive Interleave {β : Type} : List (List β) → List β → Prop
   | done {ps : List (List β)} : (∀ l ∈ ps, l = []) → Interleave ps []
   | take {a b : List (List β)} {x : β} {rest out : List β} :
       Interleave (a ++ rest :: b) out → Interleave (a ++ (x :: rest) :: b) (x :: out)
+
+/-! ## Validators behind a barrier and inside the sides of a join
+
+`runner.rs::exec_par`, arm `GroupByKey`: `curr = vec![merge(mids)]` — whatever the source partitioning was, ONE
+partition comes out of a barrier, and the fused block that follows runs on it (sequentially there is one
+partition throughout). `group_by_key` + ungroup (`flat_map`) hands the rows on grouped by key, the keys in
+`HashMap` order: SOME rearrangement `regroup` of the rows that reached the barrier. Arm `CoGroup`: the left
+sub-chain runs to completion (`run_subplan_par(left)?`), then the right one, each with the source clamp / split of
+its own source, then `exec` joins the two coalesced sides. -/
+
+/-- a block `b` that runs on the single partition coming out of a barrier, after the run `r` so far: nothing more
+    happens when `r` panicked; otherwise `b` sees `regroup mid`, its pushes land after everything pushed so far
+    (every partition of the earlier stage has finished before `merge` is called) -/
+def afterBarrier {α ε : Type} (regroup : List α → List α) (r : Run α ε) (b : List α → Outcome α ε) : Run α ε :=
+  match r.output with
+  | none => r
+  | some mid =>
+    let o := b (regroup mid)
+    { output := if o.panic.isNone then some o.valid else none
+      collector := r.collector ++ o.pushes
+      panics := r.panics ++ o.panic.toList }
+
+/-- `Source → first → barrier → later₀ → barrier → later₁ …`: the first block on the source partitions, every
+    later block on the one partition its barrier produced -/
+def runStages {α ε : Type} (regroup : List α → List α) (first : List α → Outcome α ε)
+    (later : List (List α → Outcome α ε)) (parts : List (List α)) : Run α ε :=
+  later.foldl (afterBarrier regroup) (runParts first parts)
+
+/-- stable insertion by key: `x` came before every element of `l`, so it goes in front of the first element whose
+    key is not strictly smaller -/
+def insertByKey {α : Type} (key : α → Int) (x : α) : List α → List α
+  | [] => [x]
+  | y :: ys => if key y < key x then y :: insertByKey key x ys else x :: y :: ys
+
+/-- a concrete regrouping (what the driver evaluates): the rows grouped by key, each group in arrival order
+    (`merge` appends the per-partition groups in partition order), the groups in ascending key order — ONE of the
+    orders a `HashMap` may give; the theorems hold for every permutation -/
+def regroupBy {α : Type} (key : α → Int) (xs : List α) : List α := xs.foldr (insertByKey key) []
+
+/-- `join_inner`'s `exec` closure up to the order of the output rows (the code walks a `HashMap` of the left keys;
+    per key: left rows in order × right rows in order): one row per pair of a left and a right row with equal keys -/
+def innerJoin {κ β₁ β₂ : Type} [BEq κ] (l : List (κ × β₁)) (r : List (κ × β₂)) : List (κ × (β₁ × β₂)) :=
+  l.flatMap (fun kv => (r.filter (fun kw => kw.1 == kv.1)).map (fun kw => (kv.1, (kv.2, kw.2))))
+
+/-- `Node::CoGroup`: left sub-chain (block `opL` on the left source's partitions), then the right one, then the
+    join of what the two sides let through. A panic on the left means the right side never starts. All validators
+    of both sides push into the one collector: the left side's entries land before the right side's. -/
+def runJoin {β₁ β₂ γ ε : Type} (opL : List β₁ → Outcome β₁ ε) (opR : List β₂ → Outcome β₂ ε)
+    (join : List β₁ → List β₂ → List γ) (lparts : List (List β₁)) (rparts : List (List β₂)) : Run γ ε :=
+  let rl := runParts opL lparts
+  match rl.output with
+  | none => { output := none, collector := rl.collector, panics := rl.panics }
+  | some lrows =>
+    let rr := runParts opR rparts
+    match rr.output with
+    | none => { output := none, collector := rl.collector ++ rr.collector, panics := rr.panics }
+    | some rrows => { output := some (join lrows rrows), collector := rl.collector ++ rr.collector, panics := [] }
 
 /-! ## `combine_validations` -/
 
